@@ -318,3 +318,61 @@ M('c07-asgi-iter-early-return-on-zero-budget', 'C07', 'R4', A,
   "        if self.eof:\n            return\n\n        if self._iteration_started", "        if not self._bytes_remaining:\n            return\n\n        if self._iteration_started")
 M('c07-asgi-exhaust-keeps-buffer', 'C07', 'R4', A, _EXHAUST_PROLOGUE, "        while")
 M('c07-asgi-exhaust-drops-buffer-without-position', 'C07', 'R4', A, _EXHAUST_PROLOGUE, "        self._buffer = b''\n\n        while")
+
+# ------------------------------------------------------------------ F21: an over-long event does not push the position past Content-Length (R4)
+_EXHAUST_CLAMP = ("                # NOTE: Do not count more data than we are expecting; an\n"
+                  "                #   over-long chunk is truncated the same way as in read().\n"
+                  "                if num_bytes > self._bytes_remaining:\n"
+                  "                    num_bytes = self._bytes_remaining\n\n")
+_EXHAUST_UPDATES = "                self._bytes_remaining -= num_bytes\n                self._pos += num_bytes\n"
+# (F21, revert of the fix) the whole event is counted: tell() ends up past Content-Length after exhaust()
+M('c07-asgi-exhaust-drop-clamp', 'C07', 'R4', A, _EXHAUST_CLAMP, "")
+# only the budget is clamped, the position still counts the whole event
+M('c07-asgi-exhaust-clamp-budget-not-position', 'C07', 'R4', A, _EXHAUST_CLAMP + _EXHAUST_UPDATES,
+  "                self._bytes_remaining -= min(num_bytes, self._bytes_remaining)\n                self._pos += num_bytes\n")
+# the clamp comes after the position has been advanced
+M('c07-asgi-exhaust-clamp-after-position', 'C07', 'R4', A, _EXHAUST_CLAMP + _EXHAUST_UPDATES,
+  "                self._pos += num_bytes\n\n                if num_bytes > self._bytes_remaining:\n                    num_bytes = self._bytes_remaining\n\n"
+  "                self._bytes_remaining -= num_bytes\n")
+# the clamp is off by one (an event one byte too long is counted in full)
+M('c07-asgi-exhaust-clamp-off-by-one', 'C07', 'R4', A,
+  "                if num_bytes > self._bytes_remaining:\n                    num_bytes = self._bytes_remaining\n",
+  "                if num_bytes > self._bytes_remaining + 1:\n                    num_bytes = self._bytes_remaining\n")
+# the same defect in the body iterator: data and budget are clamped, the position counts the whole event
+M('c07-asgi-iter-clamp-budget-not-position', 'C07', 'R4', A,
+  """                    if next_chunk_len <= self._bytes_remaining:
+                        self._bytes_remaining -= next_chunk_len
+                        self._pos += next_chunk_len
+                    else:
+                        # NOTE(kgriffs): We received more data than expected,
+                        #   so truncate to the expected length.
+                        next_chunk = next_chunk[: self._bytes_remaining]
+                        self._pos += self._bytes_remaining
+                        self._bytes_remaining = 0
+""", """                    next_chunk = next_chunk[: self._bytes_remaining]
+                    self._bytes_remaining -= len(next_chunk)
+                    self._pos += next_chunk_len
+""")
+# ... and in readall(): the position is tallied from the lengths of the events received, not from what is returned
+M2('c07-asgi-readall-pos-tallies-received', 'C07', 'R4', [
+    {'file': A, 'old': "            chunks = []\n\n        while self._bytes_remaining > 0:\n            event = await self._receive()\n\n"
+                       "            # PERF(kgriffs): Use try..except because we normally expect the\n            #   'body' key to be present.\n"
+                       "            try:\n                next_chunk = event['body']\n            except KeyError:\n                pass\n            else:\n"
+                       "                next_chunk_len = len(next_chunk)\n\n                if next_chunk_len <= self._bytes_remaining:\n"
+                       "                    chunks.append(next_chunk)\n                    self._bytes_remaining -= next_chunk_len\n                else:\n"
+                       "                    # NOTE(kgriffs): Do not read more data than we are\n                    #   expecting. This *should* never happen if the\n",
+     'new': "            chunks = []\n\n        while self._bytes_remaining > 0:\n            event = await self._receive()\n\n"
+            "            # PERF(kgriffs): Use try..except because we normally expect the\n            #   'body' key to be present.\n"
+            "            try:\n                next_chunk = event['body']\n            except KeyError:\n                pass\n            else:\n"
+            "                next_chunk_len = len(next_chunk)\n                self._pos += next_chunk_len\n\n                if next_chunk_len <= self._bytes_remaining:\n"
+            "                    chunks.append(next_chunk)\n                    self._bytes_remaining -= next_chunk_len\n                else:\n"
+            "                    # NOTE(kgriffs): Do not read more data than we are\n                    #   expecting. This *should* never happen if the\n"},
+    {'file': A, 'old': "            next_chunk = self._buffer\n            self._buffer = b''\n            chunks = [next_chunk]\n",
+     'new': "            next_chunk = self._buffer\n            self._buffer = b''\n            self._pos += len(next_chunk)\n            chunks = [next_chunk]\n"},
+    {'file': A, 'old': "        data = chunks[0] if len(chunks) == 1 else b''.join(chunks)\n        self._pos += len(data)\n\n        return data\n",
+     'new': "        data = chunks[0] if len(chunks) == 1 else b''.join(chunks)\n\n        return data\n"}])
+# the accounting moves into a helper method (looked through) and loses the clamp on the way
+M2('c07-asgi-exhaust-helper-without-clamp', 'C07', 'R4', [
+    {'file': A, 'old': _EXHAUST_CLAMP + _EXHAUST_UPDATES, 'new': "                self._consume(num_bytes)\n"},
+    {'file': A, 'old': "    async def exhaust(self) -> None:\n",
+     'new': "    def _consume(self, n: int) -> None:\n        self._bytes_remaining -= n\n        self._pos += n\n\n    async def exhaust(self) -> None:\n"}])
